@@ -36,12 +36,19 @@ type queue struct {
 
 type shared struct {
 	mu      sync.Mutex
-	changed chan struct{}
+	changed chan struct{} // data / closure / deadline changes: what blocked Reads and Writes wait on
+	status  chan struct{} // any change at all, including "a reader started to wait": what watchers wait on
 }
 
 func (s *shared) bump() {
 	close(s.changed)
 	s.changed = make(chan struct{})
+	s.bumpStatus()
+}
+
+func (s *shared) bumpStatus() {
+	close(s.status)
+	s.status = make(chan struct{})
 }
 
 // End is one side of the pipe.
@@ -64,7 +71,7 @@ func (a addr) String() string  { return string(a) }
 
 // New creates a connected pair. capacity bounds each direction (0 = unbounded).
 func New(capacity int, keepLog bool) (*End, *End) {
-	s := &shared{changed: make(chan struct{})}
+	s := &shared{changed: make(chan struct{}), status: make(chan struct{})}
 	a2b := &queue{cap: capacity, keepLog: keepLog}
 	b2a := &queue{cap: capacity, keepLog: keepLog}
 	a := &End{s: s, in: b2a, out: a2b, name: "a"}
@@ -92,6 +99,12 @@ func (e *End) wait(ch chan struct{}, dl time.Time) {
 func (e *End) Read(b []byte) (int, error) {
 	e.s.mu.Lock()
 	defer e.s.mu.Unlock()
+	announced := false
+	defer func() {
+		if announced {
+			e.in.waiting--
+		}
+	}()
 	for {
 		if e.closed {
 			return 0, net.ErrClosed
@@ -119,14 +132,16 @@ func (e *End) Read(b []byte) (int, error) {
 		if len(b) == 0 {
 			return 0, nil
 		}
-		e.in.waiting++
-		e.s.bump()
+		if !announced {
+			announced = true
+			e.in.waiting++
+			e.s.bumpStatus()
+		}
 		ch := e.s.changed
 		dl := e.rdl
 		e.s.mu.Unlock()
 		e.wait(ch, dl)
 		e.s.mu.Lock()
-		e.in.waiting--
 	}
 }
 
@@ -242,6 +257,18 @@ func (e *End) Unkick() {
 	e.s.mu.Unlock()
 }
 
+// Discard drops whatever is buffered for this end and returns how much it was.
+func (e *End) Discard() int {
+	e.s.mu.Lock()
+	defer e.s.mu.Unlock()
+	n := len(e.in.buf)
+	e.in.buf = nil
+	if n > 0 {
+		e.s.bump()
+	}
+	return n
+}
+
 // Status of the inbound direction of this end.
 type Status struct {
 	Buffered   int  // bytes waiting to be read by this end
@@ -260,7 +287,7 @@ func (e *End) Status() Status {
 func (e *End) Changed() <-chan struct{} {
 	e.s.mu.Lock()
 	defer e.s.mu.Unlock()
-	return e.s.changed
+	return e.s.status
 }
 
 // Written returns a copy of everything this end has written so far
